@@ -319,7 +319,15 @@ def check_case(ctx, c, r):
         return
     m, s = r["mat"], r["seq"]
     n = len(m["R"])
-    R, M, mv = m["R"], m["M"], c["mv"]
+    R, mv = m["R"], c["mv"]
+    # states holding a missing value in ANY coordinate, from the stored
+    # embedding (not from the object's own mask)
+    M = [bool(mv and any(math.isnan(v) for v in row)) for row in m["E"]]
+    if mv and M != list(m["M"]):
+        ctx.violation("missing_value_indices",
+                      "is not the set of states with a missing coordinate",
+                      dict(key, got=list(m["M"]), want=M),
+                      {"missing_values": True})
     rows, diags = cells(R, M, mv, True)
     wrows, _ = cells(R, [False] * n, False, False)
     exp_v, exp_d = recount(rows, n), [2 * v for v in recount(diags, n)]
